@@ -18,12 +18,12 @@ CLAIMED = {
     "C09": dict(
         technique="deterministic simulation with the RNG behind a seam: zero / one-hot / impulse / constant draw streams identify every noise term exactly; same-seed twin runs; gv pre-histories",
         text="PD is executed in bundles of twin runs whose Gaussian draws are served by the simulator; the effective scale of each unit-variance draw is read off exactly, so the documented variances, the selection table and the determinism of the signal part are checked for every draw, not statistically. Falls back to seeded six-sigma sweeps if the seam is bypassed.",
-        note="library LPF trusted as the output filter (C11's subject) but evaluated in a pristine process after every grid change; physical constants from scipy.constants; statistical six-sigma fallback only if a draw escapes the RNG seam",
+        note="library LPF trusted as the output filter (C11's subject) but evaluated in a pristine process after every grid change, plus two filter-independent checks (CW level away from the edges, locality on long records); physical constants from scipy.constants; statistical six-sigma fallback only if a draw escapes the RNG seam",
         ref="DESIGN.md 3/C09"),
     "C10": dict(
         technique="deterministic simulation with the RNG behind a seam: same-seed noise-stripped twins and one-hot draw streams give the exact 4xK ASE mixing matrix; gv pre-histories",
         text="EDFA is executed in bundles of twins; gain on signal and on incoming noise, polarisation bookkeeping and the ASE covariance (power, independence, circularity) are identified exactly from scripted draws; BW clause by comparison with BPF of the unfiltered twin.",
-        note="library BPF trusted for the BW clause (evaluated in a pristine process after grid changes); scipy.constants; gv.f0 is configured through wavelength only",
+        note="library BPF trusted for the exact BW comparison (evaluated in a pristine process after grid changes), plus a BPF-independent stop-band attenuation check; scipy.constants; the carrier is taken from the check's own record of gv(wavelength=...)/clean(), gv.f0 is configured through wavelength only",
         ref="DESIGN.md 3/C10"),
     "C12": dict(
         technique="deterministic simulation of a PPM link over a slot channel with injected flips/erasures/bursts; HDD's random choices served and enumerated by the simulator; exhaustive fault-free baseline",
